@@ -571,8 +571,11 @@ RTZ = z3.RTZ()
 TRUNC_BITS = 70
 
 
+TIME_MODEL = bool(__import__("os").environ.get("VERIF_TIME_SHADOW"))
+
+
 def f_is_sym(x):
-    return _attr(x, float, "_ft") is not None
+    return _attr(x, float, "_ft") is not None or _attr(x, float, "_q") is not None
 
 
 def fraw(x):
@@ -583,6 +586,8 @@ def ft(x):
     t = _attr(x, float, "_ft")
     if t is not None:
         return t
+    if _attr(x, float, "_q") is not None:
+        return x._ft  # exact rational: concretised when binary floating point semantics are demanded
     return fp_val(float.__float__(x) if isinstance(x, float) else float(int.__index__(x)))
 
 
@@ -615,6 +620,10 @@ class SFloat(float, metaclass=_Meta):
         from . import strs
 
         if strs.s_is_sym(value):
+            if TIME_MODEL and cls is SFloat:
+                r = strs.sym_decimal_parse(value)
+                if r is not None:
+                    return r
             strs.pin_str(value, "float(str)")
             value = str.__str__(value)
         if cls is SFloat:
@@ -811,6 +820,205 @@ class SFloat(float, metaclass=_Meta):
         return float.is_integer(float.__float__(s))
 
 
+# ----------------------------------------------------------------------------- exact rationals (time arithmetic)
+def _q_float(cn, den):
+    import fractions
+
+    return float(fractions.Fraction(cn, den))
+
+
+class SRat(SFloat):
+    """A float whose value is the exact rational num/den (num a z3 Int, den a positive Python int).
+
+    Produced by the time model for `timedelta.total_seconds()` / `datetime.timestamp()`: those values are integer
+    microsecond counts divided by 10**6, and the code under test only scales them by constants, compares them with
+    integer bounds and truncates them.  Arithmetic stays exact (binary rounding of the intermediate doubles is
+    abstracted; see ASSUMPTIONS of C11); anything else concretises through `_ft`.
+    """
+
+    def __new__(cls, num, den, cnum):
+        o = float.__new__(cls, _q_float(cnum, den))
+        o._q = (num, den, cnum)
+        return o
+
+    @property
+    def _ft(s):
+        num, den, cn = s._q
+        pin(num == cn, "float(exact rational)")
+        return fp_val(float.__float__(s))
+
+    def _pin(s, op="pin"):
+        num, den, cn = s._q
+        pin(num == cn, op)
+        return float.__float__(s)
+
+    @staticmethod
+    def _other(o):
+        import fractions
+
+        if isinstance(o, SBool):
+            return None
+        q = _attr(o, float, "_q")
+        if q is not None:
+            return q
+        if isinstance(o, int) and not isinstance(o, float):
+            return (tm(o), 1, iv(o))
+        if isinstance(o, float) and not f_is_sym(o):
+            c = float.__float__(o)
+            if c != c or c in (math.inf, -math.inf):
+                return None
+            fr = fractions.Fraction(repr(c))  # decimal reading of the constant (1e-9 is 10**-9)
+            return (z3.IntVal(fr.numerator), fr.denominator, fr.numerator)
+        return None
+
+    @staticmethod
+    def _norm(num, den, cn):
+        g = math.gcd(den, cn) if z3.is_int_value(num) else 1
+        if g > 1:
+            return SRat(z3.IntVal(cn // g), den // g, cn // g)
+        return SRat(z3.simplify(num), den, cn)
+
+    def _fallback(s, o, name, refl):
+        s._pin("float arithmetic on exact rational")
+        f = getattr(float, name)
+        return f(float.__float__(s), o)
+
+    def _arith(s, o, name, refl=False):
+        q = SRat._other(o)
+        if q is None:
+            if isinstance(o, (int, float)) and not isinstance(o, SBool):
+                return s._fallback(o, f"__r{name}__" if refl else f"__{name}__", refl)
+            return NotImplemented
+        a, b = (q, s._q) if refl else (s._q, q)
+        (n1, d1, c1), (n2, d2, c2) = a, b
+        if name in ("add", "sub"):
+            sg = 1 if name == "add" else -1
+            return SRat._norm(n1 * d2 + sg * n2 * d1, d1 * d2, c1 * d2 + sg * c2 * d1)
+        if name == "mul":
+            if not z3.is_int_value(n1) and not z3.is_int_value(n2):
+                pin(n2 == c2, "float product of two symbolic rationals")
+                n2 = z3.IntVal(c2)
+            return SRat._norm(n1 * n2, d1 * d2, c1 * c2)
+        if name == "truediv":
+            if not z3.is_int_value(n2):
+                if branch(n2 == 0, c2 == 0):
+                    raise ZeroDivisionError("float division by zero")
+                pin(n2 == c2, "float division by a symbolic rational")
+            if c2 == 0:
+                raise ZeroDivisionError("float division by zero")
+            sg = 1 if c2 > 0 else -1
+            return SRat._norm(n1 * (d2 * sg), d1 * abs(c2), c1 * d2 * sg)
+        raise AssertionError(name)
+
+    def __add__(s, o):
+        return s._arith(o, "add")
+
+    def __radd__(s, o):
+        return s._arith(o, "add", True)
+
+    def __sub__(s, o):
+        return s._arith(o, "sub")
+
+    def __rsub__(s, o):
+        return s._arith(o, "sub", True)
+
+    def __mul__(s, o):
+        return s._arith(o, "mul")
+
+    def __rmul__(s, o):
+        return s._arith(o, "mul", True)
+
+    def __truediv__(s, o):
+        return s._arith(o, "truediv")
+
+    def __rtruediv__(s, o):
+        return s._arith(o, "truediv", True)
+
+    def __neg__(s):
+        n, d, c = s._q
+        return SRat(-n, d, -c)
+
+    def __pos__(s):
+        return s
+
+    def __abs__(s):
+        n, d, c = s._q
+        return SRat(z3.If(n >= 0, n, -n), d, abs(c))
+
+    def _cmp(s, o, f, zf):
+        q = SRat._other(o)
+        if q is None:
+            if isinstance(o, float) and not isinstance(o, SBool):
+                c = float.__float__(o)
+                if not f_is_sym(o) and (c != c or c in (math.inf, -math.inf)):
+                    return f(float.__float__(s), c)
+                s._pin("compare exact rational with binary float")
+                return f(float.__float__(s), o)
+            return NotImplemented
+        (n1, d1, c1), (n2, d2, c2) = s._q, q
+        return SBool(f(n1 * d2, n2 * d1), f(c1 * d2, c2 * d1))
+
+    def __eq__(s, o):
+        return s._cmp(o, lambda a, b: a == b, z3.fpEQ)
+
+    def __ne__(s, o):
+        return s._cmp(o, lambda a, b: a != b, None)
+
+    def __lt__(s, o):
+        return s._cmp(o, lambda a, b: a < b, z3.fpLT)
+
+    def __le__(s, o):
+        return s._cmp(o, lambda a, b: a <= b, z3.fpLEQ)
+
+    def __gt__(s, o):
+        return s._cmp(o, lambda a, b: a > b, z3.fpGT)
+
+    def __ge__(s, o):
+        return s._cmp(o, lambda a, b: a >= b, z3.fpGEQ)
+
+    def __bool__(s):
+        n, d, c = s._q
+        return branch(n != 0, c != 0)
+
+    def __float__(s):
+        return s
+
+    def __trunc__(s):
+        n, d, c = s._q
+        q = abs(c) // d
+        return mk(SInt, z3.If(n >= 0, n / d, -((-n) / d)), q if c >= 0 else -q)
+
+    __int__ = __trunc__
+
+    def __round__(s, nd=None):
+        if nd is not None:
+            return s._fallback(nd, "__round__", False)
+        n, d, c = s._q
+        t, cv = q_round_half_even(n, d, c)
+        return mk(SInt, t, cv)
+
+    def __hash__(s):
+        s._pin("hash(float)")
+        return hash(float.__float__(s))
+
+    def __str__(s):
+        s._pin("str(float)")
+        return float.__repr__(float.__float__(s))
+
+    def is_integer(s):
+        n, d, c = s._q
+        return branch(n % d == 0, c % d == 0)
+
+
+def q_round_half_even(n, d, c):
+    """round(n/d) to the nearest integer, ties to even: (term, concrete)"""
+    q, r = n / d, n % d
+    t = z3.If(2 * r < d, q, z3.If(2 * r > d, q + 1, z3.If(q % 2 == 0, q, q + 1)))
+    cq, cr = c // d, c % d
+    cv = cq if 2 * cr < d else (cq + 1 if 2 * cr > d else (cq if cq % 2 == 0 else cq + 1))
+    return t, cv
+
+
 def fval_from_model(m, v):
     """Concrete Python float for FP term v under model m (NaN tested first: to_ieee_bv is unspecified for NaN)."""
     if z3.is_true(m.eval(z3.fpIsNaN(v), model_completion=True)):
@@ -885,9 +1093,19 @@ def _pinning_cfunc(fn):
     return shim
 
 
-CFUNC_SHIMS = {math.isnan: _m_isnan, math.isinf: _m_isinf, math.isfinite: _m_isfinite,
+def _m_fsum(xs):
+    items = list(xs)
+    if any(_attr(e, float, "_q") is not None for e in items) and all(SRat._other(e) is not None for e in items):
+        acc = SRat(z3.IntVal(0), 1, 0)
+        for e in items:
+            acc = acc + e
+        return acc
+    return _pinning_cfunc(math.fsum)(items)
+
+
+CFUNC_SHIMS = {math.fsum: _m_fsum, math.isnan: _m_isnan, math.isinf: _m_isinf, math.isfinite: _m_isfinite,
                math.copysign: _m_copysign, math.fabs: _m_fabs}
-for _fn in (math.fsum, math.floor, math.ceil, math.fmod, math.sqrt, math.pow, math.modf, math.frexp, math.ldexp,
+for _fn in (math.floor, math.ceil, math.fmod, math.sqrt, math.pow, math.modf, math.frexp, math.ldexp,
             math.log, math.log2, math.log10, math.exp, math.gcd, math.isqrt, math.remainder, math.isclose, math.prod):
     CFUNC_SHIMS[_fn] = _pinning_cfunc(_fn)
 
